@@ -1156,6 +1156,8 @@ pub struct SrcTrace {
   pub requested_at_subscribe: Vec<u64>,
   /// virtual time after each script step, and after the final run
   pub step_times: Vec<u64>,
+  /// virtual time at which this source was subscribed (0 unless it was built first and subscribed later)
+  pub sub_time: u64,
 }
 
 pub fn build_tsrc(t: &TSrc, stats: &Sh<PollStats>) -> Bx {
@@ -1180,29 +1182,51 @@ pub fn build_tsrc(t: &TSrc, stats: &Sh<PollStats>) -> Bx {
   }
 }
 
-/// C08: subscribe every source at t = 0 (own probe each), then run the clock / executor script
-pub fn exec_sources(srcs: &[TSrc], script: &[Step], mode: SchedMode) -> Vec<SrcTrace> {
+/// C08: every source is built at t = 0; source i is subscribed (own probe each) right away when `sub_at[i]` is 0 or
+/// missing, otherwise just before script step `sub_at[i]`; the script drives the clock / executor
+pub fn exec_sources(srcs: &[TSrc], script: &[Step], mode: SchedMode, sub_at: &[usize]) -> Vec<SrcTrace> {
   use crate::vtime;
   vtime::reset(conv_mode(mode));
   crate::stamp::set(crate::stamp::AT_SUBSCRIBE);
-  let mut probes = vec![];
+  let prompt = mode == SchedMode::Fifo;
+  let n = srcs.len();
+  let mut built: Vec<Option<Bx>> = vec![];
+  let mut probes: Vec<(Probe, Sh<PollStats>, Vec<u64>, u64)> = vec![];
   let mut subs = vec![];
   for t in srcs {
     let stats = sh(PollStats::default());
-    let before = vtime::requested().len();
-    let p = build_tsrc(t, &stats);
-    let probe = Probe::new();
-    subs.push(p.actual_subscribe(probe.clone()));
-    let req: Vec<u64> = vtime::requested()[before..].iter().map(|d| as_ticks(*d)).collect();
-    probes.push((probe, stats, req));
+    built.push(Some(build_tsrc(t, &stats)));
+    probes.push((Probe::new(), stats, vec![], 0));
   }
-  let prompt = mode == SchedMode::Fifo;
+  let mut subscribe = |i: usize, built: &mut Vec<Option<Bx>>, probes: &mut Vec<(Probe, Sh<PollStats>, Vec<u64>, u64)>| {
+    if let Some(p) = built[i].take() {
+      let before = vtime::requested().len();
+      subs.push(p.actual_subscribe(probes[i].0.clone()));
+      probes[i].2 = vtime::requested()[before..].iter().map(|d| as_ticks(*d)).collect();
+      probes[i].3 = as_ticks(vtime::now());
+    }
+  };
+  for i in 0..n {
+    if sub_at.get(i).cloned().unwrap_or(0) == 0 {
+      subscribe(i, &mut built, &mut probes);
+    }
+  }
   if prompt {
     vtime::run_until_stalled();
   }
   let mut step_times = vec![];
   for (k, st) in script.iter().enumerate() {
     crate::stamp::set(k);
+    let mut late = false;
+    for i in 0..n {
+      if k > 0 && sub_at.get(i).cloned().unwrap_or(0) == k {
+        subscribe(i, &mut built, &mut probes);
+        late = true;
+      }
+    }
+    if late && prompt {
+      vtime::run_until_stalled();
+    }
     match st {
       Step::Advance(n) => vtime::advance(ticks(*n), prompt),
       Step::FireNext => {
@@ -1228,8 +1252,9 @@ pub fn exec_sources(srcs: &[TSrc], script: &[Step], mode: SchedMode) -> Vec<SrcT
   step_times.push(as_ticks(vtime::now()));
   let out = probes
     .into_iter()
-    .map(|(p, s, req)| SrcTrace { recs: p.recs(), stats: lock!(s).clone(), requested_at_subscribe: req, step_times: step_times.clone() })
+    .map(|(p, s, req, t)| SrcTrace { recs: p.recs(), stats: lock!(s).clone(), requested_at_subscribe: req, step_times: step_times.clone(), sub_time: t })
     .collect();
+  drop(subscribe);
   drop(subs);
   out
 }
